@@ -8,7 +8,7 @@ import pyrtl
 from pyrtl import passes as P
 from .. import designs, equiv, simdrv, spec
 from ..simdrv import Vars
-from . import c04
+from . import c04, c11
 
 PROP = 'C09'
 LEVEL = 'translation_validation'
@@ -44,14 +44,16 @@ def cases(tier, seed):
     struct = ['concat2', 'sel1', 'direct', 'fanout2']
     pairs = [(a, b) for a in struct for b in struct if a != b] + [(g, s) for g in GATE for s in struct]
     for i, c in enumerate(base):
-        for p in PASSES:
-            out.append(dict(c, K=K, passes=[p], base='synth' if p in GATE else ('word' if i % 3 else 'synth')))
+        for j, p in enumerate(PASSES):
+            out.append(dict(c, K=K, passes=[p], base='synth' if p in GATE else ('word' if i % 3 else 'synth'),
+                            scope=('both', 'explicit', 'implicit')[(i + j) % 3]))
         if tier == 'quick':
             sel = [pairs[i % len(pairs)], pairs[(i * 7 + 3) % len(pairs)]]
         else:
             sel = pairs
-        for a, b in sel:
-            out.append(dict(c, K=K, passes=[a, b], base='synth' if a in GATE else 'word'))
+        for j, (a, b) in enumerate(sel):
+            out.append(dict(c, K=K, passes=[a, b], base='synth' if a in GATE else 'word',
+                            scope=('explicit', 'both', 'implicit')[(i + j) % 3]))
     return out
 
 
@@ -59,21 +61,26 @@ def prep(case):
     return c04.prep(case)
 
 
-def apply_passes(case, blk):
+def apply_passes(case, blk, other=None):
+    """scope 'both': blk is the working block AND passed as block=; 'explicit': another block (`other`) is the working
+    block and blk is passed as block=; 'implicit': blk is the working block and the pass is called without a block"""
+    scope = case.get('scope', 'both')
+    wb = other if (scope == 'explicit' and other is not None) else blk
+    kw = {} if scope == 'implicit' else {'block': blk}
     for p in case['passes']:
-        with pyrtl.set_working_block(blk, no_sanity_check=True):
+        with pyrtl.set_working_block(wb, no_sanity_check=True):
             if p == 'nand':
-                pyrtl.nand_synth(block=blk)
+                pyrtl.nand_synth(**kw)
             elif p == 'aig':
-                pyrtl.and_inverter_synth(block=blk)
+                pyrtl.and_inverter_synth(**kw)
             elif p == 'concat2':
-                pyrtl.two_way_concat(block=blk)
+                pyrtl.two_way_concat(**kw)
             elif p == 'sel1':
-                pyrtl.one_bit_selects(block=blk)
+                pyrtl.one_bit_selects(**kw)
             elif p == 'direct':
-                pyrtl.direct_connect_outputs(block=blk)
+                pyrtl.direct_connect_outputs(**kw)
             elif p == 'fanout2':
-                pyrtl.two_way_fanout(block=blk)
+                pyrtl.two_way_fanout(**kw)
             else:
                 raise ValueError(p)
     return blk
@@ -123,11 +130,14 @@ def run_case(case, ob, tier):
     site = site_of(case)
     A = prep(case)
     B = prep(case)
+    fpA = c11.fingerprint(A)
     try:
-        apply_passes(case, B)
+        apply_passes(case, B, other=A)
     except Exception as e:
         ob.fact('pass-accepts-design', False, site + ':raises', detail='%s: %s' % (type(e).__name__, e))
         return
+    ob.fact('pass-touches-only-the-block-it-was-given', c11.fingerprint(A) == fpA, site + ':other-block-modified',
+            detail='scope=%s' % case.get('scope', 'both'))
     ob.fact('same-inputs-and-outputs', c04.io_sig(A) == c04.io_sig(B), site + ':io')
     try:
         B.sanity_check()
@@ -154,11 +164,14 @@ def replay(cex):
     site = cex.get('site', '')
     A = prep(case)
     B = prep(case)
+    fpA = c11.fingerprint(A)
     try:
-        apply_passes(case, B)
+        apply_passes(case, B, other=A)
     except Exception as e:
         return True, 'pass raised %s: %s on %r' % (type(e).__name__, e, case)
     if cex.get('structural'):
+        if c11.fingerprint(A) != fpA:
+            return True, 'the pass modified a block it was not given (scope=%s)' % case.get('scope', 'both')
         if c04.io_sig(A) != c04.io_sig(B):
             return True, 'I/O changed'
         try:
